@@ -146,6 +146,15 @@ def decision_errors(ctx, crate, crs, tag):
                     how = how or ("passed to %s" % nm)
             elif kind == "discr":
                 how = how or "match"
+        # the level the decision is recorded at is a run-time level of the caller (its `level` parameter, a level returned by
+        # analyze, starting_level + 1 ...), never a constant: undo_until relies on levels being monotone along the trail
+        lvd, _ = q.origin_thru(b, t["args"][2], transparent=set())
+        lv_const = lvd["k"] == "const" or (t["args"][2].get("k") == "const")
+        if lvd["k"] == "multi":
+            lv_const = all(idx != "term" and r["k"] == "use" and r["o"].get("k") == "const" for bb, idx, r in lvd.get("defs", [])) and bool(lvd.get("defs"))
+        ctx.ob(R, fn, "decision-level-is-not-a-constant", not lv_const, where_call(b, i),
+               "the decision is recorded at a level computed by the caller" if not lv_const else
+               "the decision is recorded at a constant level: a later backjump cannot undo the decisions below it on the trail")
         ok = how in ("expect", "map_err->?")
         ctx.ob(R, fn, "try_add_decision:%s" % (how or "dropped"), ok, where_call(b, i),
                "the outcome of try_add_decision is asserted or converted into a Conflict and propagated" if ok else
